@@ -193,12 +193,20 @@ def check_sim(case, col=None):
                         else:
                             raise Violation('runaway', 'reader loop did not reach EOF in %d reads' % (total + 1000))
                     elif style == 'expect_eof':
-                        sp.expect(EOF, timeout=None)
+                        try:
+                            sp.expect(EOF, timeout=None)
+                        except TIMEOUT:
+                            raise Violation('timeout-without-limit', 'expect(EOF, timeout=None) raised TIMEOUT (%s transport, %s); '
+                                            'pending %d of %d' % (case['kind'], 'poll' if case['use_poll'] else 'select', len(sp.before or ''), total))
                         got = sp.before
                         eof_seen = True
                     else:
                         sp.timeout = None
-                        got = sp.read()
+                        try:
+                            got = sp.read()
+                        except TIMEOUT:
+                            raise Violation('timeout-without-limit', 'read() with timeout None raised TIMEOUT (%s transport, %s)'
+                                            % (case['kind'], 'poll' if case['use_poll'] else 'select'))
                         eof_seen = True
             except Blocked as b:
                 # the only scripted way to block forever is a bug: close and exit always come
